@@ -26,7 +26,7 @@ CLAIMS = {
             'the complement of known finding F2), every callable rule, input and pair of fuels on which both runs end, the REAL parse path '
             "(Sem.v, pest::Stack bug for bug) on the generator model's output succeeds exactly when the PEG spec of pest (Model/PegSpec.v) "
             'does, at the same offset with the same stack, and fails when it fails (forward simulation C01_simulation for every '
-            'expression/context + fuel monotonicity + the C05 refinement); C01_example (premises satisfiable), witness C01_refuted_ws. Ties: '
+            'expression/context + fuel monotonicity + the C05 refinement); C01_total: for grammars accepted by the verified certificate checker wf_cert both runs end and agree, with no premise about either run (C11 + backward simulation C01_spec_ends_if_typed_ends); C01_example / C01_total_example (premises satisfiable), witness C01_refuted_ws. Ties: '
             'spec validated against the real pest parser on every explored case (verdict, offset, Pairs); generator model tied by V1 (real '
             'generator output extracted from the token stream == translate, seeded random grammars); derive corpus compiled through both '
             'derives: typed == faithful model == spec. Known finding F2.',
